@@ -163,6 +163,29 @@ Theorem C09_size_test_gap_refuted : forall (V : Type) (v : Z) (es : list (vkey *
 Proof. exact @clear_gap_keeps_everything. Qed.
 Print Assumptions C09_size_test_gap_refuted.
 
+(* (7) the repair commands ZFIXKEY / LFIXKEY find nothing to repair on a record that satisfies the invariant: they
+   are the identity (ZFIXKEY compares the stored size with the entries ZRANGE 0 -1 finds; LFIXKEY compares head / tail
+   of the meta with the first / last element key found between listMinSeq and listMaxSeq — every stored list lies
+   strictly inside that space, InSpace, itself an invariant: lstep_space) *)
+Theorem C09_zfixkey_is_identity_on_healthy_zsets : forall (compact : bool) (clock ts : Z) (key : bytes) (z : zcoll),
+  RepZ compact clock z -> MapZ.zstep compact ts key ZCfixkey z = (z, RNil).
+Proof. exact zfixkey_noop. Qed.
+Print Assumptions C09_zfixkey_is_identity_on_healthy_zsets.
+
+Theorem C09_lfixkey_is_identity_on_healthy_lists : forall (compact : bool) (clock ts : Z) (key : bytes) (l : lcoll),
+  RepL compact clock l -> InSpace l -> MapL.lstep compact ts key LCfixkey l = (l, RNil).
+Proof. exact lfixkey_noop. Qed.
+Print Assumptions C09_lfixkey_is_identity_on_healthy_lists.
+
+(* counting the members through a score range bounded by rockredis.MinScore / MaxScore (the int64 constants
+   +-(2^63-1), 2^63 as doubles) instead of by rank misses the members with an infinite score: the shape of a seeded
+   change of ZFIXKEY that the check catches (scores at and beyond +-2^63 are generated) *)
+Example C09_int64_score_bounds_miss_infinite_scores :
+  let z := fst (MapZ.zstep false 1 k_ts (ZCadd [(SPInf, b_a); (SFin 1, b_b); (SNInf, b_c)]) empty_zcoll) in
+  zquery k_ts ZQcard z = RInt 3 /\
+  zquery k_ts (ZQcount (SFin (-9223372036854775808), false) (SFin 9223372036854775808, false)) z = RInt 1.
+Proof. vm_compute. split; reflexivity. Qed.
+
 (* ---------- non-vacuity ---------- *)
 (* a reachable non-trivial state: SADD with a repeated member, HMSET with a repeated field, ZADD with a
    repeated member, pushes and a trim, under wait_compact with a clear + re-create in between *)
